@@ -169,12 +169,16 @@ static int minimise(Cand &c, int budget) {
                 if (still_fails(p, s, c.key, c.fn)) { c.plan = p; c.sched = s; progress = true; }
             }
     }
-    // 3. drop switches
-    for (int i = (int)c.sched.sw.size() - 1; i >= 0; i--) {
-        Schedule s = c.sched;
-        s.sw.erase(s.sw.begin() + i);
-        if (++tries > budget) return tries;
-        if (still_fails(c.plan, s, c.key, c.fn)) c.sched = s;
+    // 3. drop switches: whole chunks first (ddmin), then one by one
+    for (size_t chunk = c.sched.sw.size() / 2; chunk >= 1 && tries < budget; chunk /= 2) {
+        for (size_t i = 0; i + chunk <= c.sched.sw.size() && tries < budget;) {
+            Schedule s = c.sched;
+            s.sw.erase(s.sw.begin() + i, s.sw.begin() + i + chunk);
+            tries++;
+            if (still_fails(c.plan, s, c.key, c.fn)) c.sched = s;
+            else i += chunk;
+        }
+        if (chunk == 1) break;
     }
     // 3b. tasks that lost all their ops
     for (int t = (int)c.plan.tasks.size() - 1; t >= 0 && c.plan.tasks.size() > 1; t--) {
